@@ -104,6 +104,8 @@ def body_factory(tier, seed):
         g = GD.Gen(tier, seed)
         raws = [c[3] for c in base.corpus() + g.stratum_frames()]
         raws += ["\ufeff[2]", "[2,\"i\",\"a\",{}]\x00", "[1e400,1]", "[-0,\"\"]", "[2,\"i\",\"a\",{\"k\":" + "9" * 4301 + "}]",
+                 b'[2,"id-\xff","Heartbeat",{}]', b'[3,"i",{"k":"caf\xe9"}]', b'[4,"i","GenericError","d\xc3",{}]', b'[2,"i","Heart\x80beat",{}]',
+                 b'[2,"i","a",{"k\xc0\xaf":1}]', b'[3,"\xed\xa0\x80",{}]', b'[2,"i","a",{"v":"\xf8\x88\x80\x80\x80"}]', b'[2,"\xe2\x82","a",{}]',
                  "{" * 5000, "[" * 995 + "]" * 995, "\"\\ud800\"", "[2,\"\\u0000\",\"\",{}]", b"[2,\"i\",\"a\",{}]\xff", b"\xfe\xff\x00[\x00]"]
         for _ in range(200 if tier == "quick" else 3000):
             v = [rng.choice([2, 3, 4, rng.choice(ALPHABET)])] + [random_json(rng) for _ in range(rng.randrange(6))]
